@@ -20,7 +20,7 @@ RULE = ("reference dataset R (2-3 dims) and 1-2 source datasets S (1-3 dims) lin
         "distinct by spec hash.")
 ASSUMPTIONS = [
     "links and data are fixed within a sequence (the statement says 'for unchanged data'); module caches are cleared at the top of every case",
-    "a ranged R dimension that reaches no S dimension is broadcast (broadcast=True) or raises IncompatibleDataException (broadcast=False)",
+    "a ranged R dimension that reaches no S dimension is broadcast (broadcast=True); with broadcast=False an IncompatibleDataException is accepted, and so is the correct broadcast buffer (the dependency analysis is allowed to be conservative for coupled axes); an exception when the dimension does reach S is a violation",
     "astropy WCS-linked datasets are out of scope; links are exact affine pixel maps",
 ]
 
@@ -36,6 +36,8 @@ def build(spec):
     from glue.core.component_link import ComponentLink
     rshape = tuple(spec["rshape"])
     R = Data(label="R", r=np.arange(int(np.prod(rshape)), dtype=float).reshape(rshape) + 100)
+    if spec.get("rcoords"):
+        R.coords = gen.build_coords({"kind": "affine", "matrix": spec["rcoords"]}, len(rshape))
     dc = DataCollection([R])
     sources = []
     for k, ss in enumerate(spec["sources"]):
@@ -45,7 +47,8 @@ def build(spec):
         dc.append(S)
         for j in range(len(shp)):
             a, b, pj = ss["a"][j], ss["b"][j], ss["pi"][j]
-            dc.add_link(ComponentLink([R.pixel_component_ids[pj]], S.pixel_component_ids[j], using=mk_map(a, b)))
+            src = R.world_component_ids[pj] if (ss.get("via_world") and spec.get("rcoords")) else R.pixel_component_ids[pj]
+            dc.add_link(ComponentLink([src], S.pixel_component_ids[j], using=mk_map(a, b)))
         sources.append(S)
     return R, sources, dc
 
@@ -67,7 +70,25 @@ def oracle(spec, req, R, sources):
         data = sources[req["src"]]
         ss = spec["sources"][req["src"]]
         maps = [(ss["a"][j], ss["b"][j], ss["pi"][j]) for j in range(data.ndim)]
-    used = {m[2] for m in maps}
+    via_world = req["src"] >= 0 and bool(spec.get("rcoords")) and bool(spec["sources"][req["src"]].get("via_world"))
+    nr = len(bounds)
+    if via_world:
+        M = np.array(spec["rcoords"], dtype=float)
+        # numpy axis i of R <-> matrix row/column nr-1-i
+        def world_of(axis):
+            row = nr - 1 - axis
+            w = np.zeros(shape) + M[row][nr]
+            for c in range(nr):
+                w = w + M[row][c] * grid[nr - 1 - c]
+            return w
+        def axes_of(axis):
+            row = nr - 1 - axis
+            return {nr - 1 - c for c in range(nr) if M[row][c] != 0}
+        used = set()
+        for m in maps:
+            used |= axes_of(m[2])
+    else:
+        used = {m[2] for m in maps}
     if req["src"] >= 0 and not req["broadcast"]:
         for i, b in enumerate(bounds):
             if isinstance(b, tuple) and i not in used:
@@ -76,7 +97,7 @@ def oracle(spec, req, R, sources):
     sure = np.ones(shape, dtype=bool)
     idx = []
     for j, (a, b, pj) in enumerate(maps):
-        pos = a * grid[pj] + b
+        pos = a * (world_of(pj) if via_world else grid[pj]) + b
         frac = np.abs(pos - np.floor(pos) - 0.5)
         sure &= frac > 1e-9
         k = np.round(pos).astype(int)
@@ -158,7 +179,12 @@ def fn_sequence(spec, rec):
                     raise
                 raise Mismatch("frb-raises/%s/%s" % (type(e).__name__, tag), dict(detail, exc=repr(e)))
             if isinstance(exp, str):
-                raise Mismatch("no-IncompatibleDataException-with-broadcast-off/" + tag, detail)
+                # the dependency analysis may be conservative (coupled coordinate axes are treated as one block), in which
+                # case no exception is raised; the buffer must then still be the correct (broadcast) resampling
+                exp_b, sure_b = oracle(spec, dict(req, broadcast=True), R, sources)
+                compare(got, exp_b, sure_b, "frb-differs-from-nearest-pixel-resampling/%s/%s/broadcast-off-not-raised" % (req["kind"], tag), detail)
+                rec.label("broadcast-off-not-raised(conservative-dependency)")
+                continue
             compare(got, exp, sure, "frb-differs-from-nearest-pixel-resampling/%s/%s" % (req["kind"], tag), detail)
         if prev is not None:
             diff = [x for x in ("bounds", "att", "kind", "src", "thr", "broadcast") if prev.get(x) != req.get(x)]
@@ -300,7 +326,7 @@ def cases(draw):
         shape = [draw(st.integers(1, 5)) for _ in range(nd)]
         a = [draw(st.sampled_from([1.0, 1.0, 2.0, 0.5, -1.0])) for _ in range(nd)]
         b = [draw(st.integers(-2, 3)) + 0.3 for _ in range(nd)]
-        sources.append({"shape": shape, "pi": pi, "a": a, "b": b})
+        sources.append({"shape": shape, "pi": pi, "a": a, "b": b, "via_world": draw(st.booleans())})
     nreq = draw(st.integers(1, 8))
     reqs = []
     base = [draw(bound(rshape[i])) for i in range(nr)]
@@ -320,7 +346,18 @@ def cases(draw):
         reqs.append({"bounds": bounds, "src": draw(st.integers(-1, len(sources) - 1)) if draw(st.integers(0, 3)) else draw(st.integers(0, len(sources) - 1)),
                      "kind": draw(st.sampled_from(["values", "values", "mask"])), "att": draw(st.sampled_from(["v", "w"])),
                      "thr": float(draw(st.integers(0, 6))), "broadcast": draw(st.sampled_from([True, True, True, False]))})
-    return {"rshape": rshape, "sources": sources, "requests": reqs, "also_uncached": draw(st.booleans())}
+    rcoords = None
+    kind = draw(st.sampled_from(["none", "diagonal", "shear"]))
+    if kind != "none":
+        rcoords = [[0.0] * (nr + 1) for _ in range(nr + 1)]
+        rcoords[nr][nr] = 1.0
+        for i in range(nr):
+            rcoords[i][i] = draw(st.sampled_from([1.0, 2.0, 0.5, -1.0]))
+            rcoords[i][nr] = float(draw(st.integers(-2, 2)))
+        if kind == "shear":
+            i, j = draw(st.sampled_from([(0, 1), (1, 0)] + ([(1, 2), (0, 2)] if nr == 3 else [])))
+            rcoords[i][j] = draw(st.sampled_from([1.0, -1.0, 0.5]))
+    return {"rshape": rshape, "rcoords": rcoords, "sources": sources, "requests": reqs, "also_uncached": draw(st.booleans())}
 
 
 def checks(tier):
